@@ -66,6 +66,22 @@ def schedule(draw, tier="quick"):
             # ... and may register its second strategy only after the first image was processed
             op["staged"] = draw(st.booleans())
         ops.append(op)
+    directed = draw(st.integers(0, 9))
+    if directed <= 1:
+        # an order is placed and acknowledged, then ...
+        pre = [{"op": "place", "s": 0, "r": 0, "side": draw(st.sampled_from(["BACK", "LAY"])), "tick": 60, "size": draw(st.sampled_from([5.0, 10.0])), "typ": "LIMIT"},
+               {"op": "task", "k": 0}, {"op": "snap"}, {"op": "process", "n": 1}]
+        if directed == 0:
+            # ... chased: replaced, then the replacement replaced again, and the stream reports the newest bet before
+            # the response of that second replace is handled
+            pre += [{"op": "replace", "o": 0}, {"op": "task", "k": 0}, {"op": "snap"}, {"op": "process", "n": 1},
+                    {"op": "replace", "o": -1}, {"op": "task_race", "k": 0, "o": -1, "race": ["snap+process"]}, {"op": "snap"}, {"op": "process", "n": 1}]
+        else:
+            # ... partly cancelled (more / less than half of what is left); the stream reflects the reduction before
+            # the cancel response is handled
+            pre += [{"op": "cancel_part", "o": 0, "frac": draw(st.sampled_from([0.25, 0.6, 0.75]))},
+                    {"op": "task_race", "k": 0, "o": 0, "race": ["snap+process"]}, {"op": "snap"}, {"op": "process", "n": 1}]
+        ops = pre + ops
     c = {"ops": ops, "async": draw(st.integers(0, 3)) == 0, "strategies": draw(st.sampled_from([["S"], ["S", "T"]]))}
     if draw(st.integers(0, 3)) == 0:
         c["handicap"] = True  # asian-handicap style market: one selection id on two lines, another on a third
